@@ -44,6 +44,16 @@ macro_rules! quat_checks {
                     acc.fail(&format!("{tn}::{site}"), format!("a={:?} b={:?} got={:?} want={:?}", a, b, g, w));
                 }
             }
+            // negation and conjugation flip signs *exactly*, the sign of a zero component included
+            {
+                let l = qa.to_array();
+                let (gn, gc) = ((-qa).to_array(), qa.conjugate().to_array());
+                for i in 0..4 {
+                    if gn[i].to_bits() != (-l[i]).to_bits() { acc.fail(&format!("{tn}::neg(bit-exact)"), format!("a={:?} lane {i}: got={:?} want={:?}", l, gn[i], -l[i])); }
+                    let wc = if i < 3 { -l[i] } else { l[i] };
+                    if gc[i].to_bits() != wc.to_bits() { acc.fail(&format!("{tn}::conjugate(bit-exact)"), format!("a={:?} lane {i}: got={:?} want={:?}", l, gc[i], wc)); }
+                }
+            }
             let d = qa.dot(qb) as f64;
             let l2 = qa.length_squared() as f64;
             acc.eval(nz, d.to_bits());
